@@ -1,5 +1,6 @@
 import OmplModel.Proofs.PdfSample
 import OmplModel.Proofs.ESTPdf
+import OmplModel.Proofs.ProjEST
 import Mathlib.Tactic.FieldSimp
 import Mathlib.Tactic.Ring
 import Mathlib.Algebra.Order.Field.Basic
@@ -474,5 +475,294 @@ example : (estRun 0).status = .timeout ∧ (estRun 0).added = none := by decide
 example : (@solve Nat Int intScale estToy #[30] estScript 6).status = .invalidStart := by decide
 
 end EST
+
+/-! ## the user that combines the PDF with a grid: `geometric::ProjEST` -/
+
+section ProjEST
+open OmplModel.ProjEST
+open OmplModel.EST (Node Script)
+variable {S D : Type}
+
+/-- a toy instance for the non-vacuity examples: states are naturals on a line, the projection cell of `s` is `s / 3`,
+motions of length ≤ 3 ending off 7 are valid, goal 9 (threshold 1); integer weights `wOne = 60`, `wCell n = 60 / n`;
+the index draw is `u mod n`. -/
+def projToy : ProjEST.Cfg Nat Int where
+  coord s := [Int.ofNat (s / 3)]
+  lt a b := decide (a < b)
+  inf := 1000
+  goalBias := 1
+  canSample := true
+  wOne := 60
+  wCell n := 60 / Int.ofNat n
+  pickIdx u n := u.toNat % n
+  bounds s := decide (s ≤ 20)
+  valid s := decide (s ≠ 7)
+  checkMotion a b := decide (b ≠ 7 ∧ (Int.ofNat a - Int.ofNat b).natAbs ≤ 3)
+  goalDist s := (Int.ofNat s - 9).natAbs
+  threshold := 1
+
+def projScript : Script Nat Int :=
+  { us := [0, 0, 5, 0, 1, 5, 1, 0, 5, 1, 0, 0], nears := [(true, 5), (true, 6), (false, 0)], goals := [9] }
+
+def projRun (budget : Nat) : ProjEST.Report Nat Int := @ProjEST.solve Nat Int intScale projToy #[4, 30] projScript budget
+
+
+
+theorem projToy_hw : @WOps.lt Int intScale.toWOps projToy.wOne (@WOps.zero Int intScale.toWOps) = false := by decide
+
+theorem projToy_pick : ∀ (u : Int) (n : Nat), 0 < n → projToy.pickIdx u n < n := fun u n hn => Nat.mod_lt _ hn
+
+
+/-- **ProjEST tree invariant** [AF], for every configuration (projection, validity, motion validator, goal, weight
+formulas, index draw), start set, script and interruption point: every root is a problem-definition start that
+satisfies the bounds and is valid; every other motion's parent was created earlier and `checkMotion(parent, child)`
+returned true. -/
+theorem projest_tree_inv [WScale D] (cfg : ProjEST.Cfg S D) (starts : Array S) (sc : Script S D) (budget : Nat) :
+    ProjEST.TreeInv cfg starts (ProjEST.solve cfg starts sc budget).final.tree :=
+  (ProjEST.final_stInv cfg starts sc budget).tree
+
+example : ProjEST.TreeInv projToy #[4, 30] (projRun 6).final.tree :=
+  @projest_tree_inv Nat Int intScale projToy #[4, 30] projScript 6
+example : (projRun 6).final.tree.size = 4 := by decide
+
+/-- **every motion sits in exactly the cell of its projection coordinate** [AF]: for every motion `i` of the tree there
+is a cell `k` and a position `p` with `cells[k].motions[p] = i`, that cell's coordinate is the motion's projection
+coordinate and it is the cell the grid returns for that coordinate; `(k, p)` is unique; conversely every entry of every
+cell is a tree motion with the cell's coordinate, and no cell is empty. -/
+theorem projest_cells_partition [WScale D] (cfg : ProjEST.Cfg S D) (hw : WOps.lt cfg.wOne (WOps.zero : D) = false)
+    (starts : Array S) (sc : Script S D) (budget : Nat) :
+    ∀ st, st = (ProjEST.solve cfg starts sc budget).final →
+      (∀ i, i < st.tree.size → ∃ (k : Nat) (ci : CellInfo) (p : Nat) (nd : Node S),
+          st.cells[k]? = some ci ∧ ci.motions[p]? = some i ∧ st.tree[i]? = some nd ∧
+          ci.coord = cfg.coord nd.state ∧
+          (OmplModel.Grid.getCell st.grid (cfg.coord nd.state)).map (·.id) = some k ∧
+          ∀ (k' : Nat) (ci' : CellInfo) (p' : Nat), st.cells[k']? = some ci' → ci'.motions[p']? = some i → k' = k ∧ p' = p) ∧
+      (∀ (k : Nat) (ci : CellInfo), st.cells[k]? = some ci → 0 < ci.motions.size ∧
+          ∀ (p m : Nat), ci.motions[p]? = some m → ∃ nd, st.tree[m]? = some nd ∧ cfg.coord nd.state = ci.coord) := by
+  intro st hst
+  subst hst
+  have h := ProjEST.final_ginv cfg hw starts sc budget
+  refine ⟨?_, fun k ci hk => ⟨h.nonempty k ci hk, fun p m hp => h.mem k ci p m hk hp⟩⟩
+  intro i hi
+  obtain ⟨k, ci, p, hk, hp⟩ := h.cover i hi
+  obtain ⟨nd, hnd, hc⟩ := h.mem k ci p i hk hp
+  refine ⟨k, ci, p, nd, hk, hp, hnd, hc.symm, ?_, ?_⟩
+  · have hklt : k < (ProjEST.solve cfg starts sc budget).final.grid.length := by
+      rw [h.glen]; exact ProjEST.lt_of_getElem?_some _ _ _ hk
+    obtain ⟨hid, ci0, hci0, hc0⟩ := h.gcell k _ (List.getElem?_eq_getElem hklt)
+    rw [hk] at hci0; cases hci0
+    have := (OmplModel.Grid.getCell_eq_some_iff h.gnodup (x := cfg.coord nd.state)).mpr
+      ⟨List.getElem_mem hklt, by rw [← hc0, hc]⟩
+    rw [this]; simp [hid]
+  · intro k' ci' p' hk' hp'
+    have := h.uniq k' k ci' ci p' p i hk' hk hp' hp
+    exact this
+
+example := @projest_cells_partition Nat Int intScale projToy projToy_hw #[4, 30] projScript 6 _ rfl
+example : ((projRun 6).final.cells.toList.map (fun c => (c.coord, c.motions.toList, c.elem))) =
+    [([1], [0, 1], 0), ([2], [2], 1), ([3], [3], 2)] := by decide
+
+/-- **The PDF follows the cells** [AF], for every script and interruption point: the PDF holds exactly one element per
+grid cell (sizes agree, the stored handles are exactly the cell indices, `index_` fields in sync, tree shape intact);
+handle ↔ cell is a bijection through the stored `elem_` back-pointer (`cells[k].elem = k`, and grid cell `k` carries id
+`k`); cells are never empty; and the weight of cell `k`'s element is the coded function of the cell's CURRENT motion
+count: `wOne` (= `1.0`) for a singleton, `wCell n` (= `1.0 / n`) for `n ≥ 2` motions.  (`hw`: `add` does not reject
+`wOne`.) -/
+theorem projest_pdf_sync [WScale D] (cfg : ProjEST.Cfg S D) (hw : WOps.lt cfg.wOne (WOps.zero : D) = false)
+    (starts : Array S) (sc : Script S D) (budget : Nat) :
+    ∀ st, st = (ProjEST.solve cfg starts sc budget).final →
+      st.pdf.data.size = st.cells.size ∧ st.grid.length = st.cells.size ∧ ShapeInv st.pdf ∧ IdxSync st.pdf ∧
+      (∀ h, h ∈ st.pdf.data ↔ h < st.cells.size) ∧
+      (∀ (k : Nat) (gc : OmplModel.Grid.Cell), st.grid[k]? = some gc → gc.id = k) ∧
+      ∀ (k : Nat) (ci : CellInfo), st.cells[k]? = some ci →
+        ci.elem = k ∧ 0 < ci.motions.size ∧
+        st.pdf.getWeight k = some (if ci.motions.size = 1 then cfg.wOne else cfg.wCell ci.motions.size) := by
+  intro st hst
+  subst hst
+  have h := ProjEST.final_ginv cfg hw starts sc budget
+  refine ⟨h.p.size, h.glen, h.p.shape, h.p.idx, fun k => ⟨?_, ?_⟩, fun k gc hg => (h.gcell k gc hg).1,
+    fun k ci hk => ⟨h.elem k ci hk, h.nonempty k ci hk, h.weight k ci hk⟩⟩
+  · intro hm
+    obtain ⟨i, hi, e⟩ := Array.getElem_of_mem hm
+    have := h.p.idx.fwd i hi
+    rw [e] at this
+    rcases Nat.lt_or_ge k (ProjEST.solve cfg starts sc budget).final.cells.size with hk | hk
+    · exact hk
+    · have := h.p.idx.fresh k (by rw [h.p.next]; exact hk)
+      simp_all
+  · intro hk
+    have hci : (ProjEST.solve cfg starts sc budget).final.cells[k]? = some _ := Array.getElem?_eq_getElem hk
+    have hwk := h.weight k _ hci
+    rw [getWeight_eq] at hwk
+    cases hi : (ProjEST.solve cfg starts sc budget).final.pdf.idx k with
+    | none => rw [hi] at hwk; simp at hwk
+    | some i => exact Array.mem_of_getElem? (h.p.idx.bwd k i hi)
+
+example := @projest_pdf_sync Nat Int intScale projToy projToy_hw #[4, 30] projScript 6 _ rfl
+example : (projRun 6).final.pdf.tree = [#[30, 60, 60], #[90, 60], #[150]] ∧ (projRun 6).final.pdf.data = #[0, 1, 2] := by
+  decide
+
+open Exact in
+/-- [EX] over an ordered field, with the weights as coded (`1`, `1/n`), the weight of every cell's element is
+`1 / (current number of motions in the cell)`. -/
+theorem projest_weight_is_inverse_count {K : Type} [Field K] [LinearOrder K] [IsStrictOrderedRing K]
+    (cfg : ProjEST.Cfg S K) (hone : cfg.wOne = 1) (hcell : cfg.wCell = fun (n : Nat) => 1 / (n : K))
+    (starts : Array S) (sc : Script S K) (budget : Nat) (k : Nat) (ci : CellInfo)
+    (hk : (ProjEST.solve cfg starts sc budget).final.cells[k]? = some ci) :
+    (ProjEST.solve cfg starts sc budget).final.pdf.getWeight k = some (1 / (ci.motions.size : K)) := by
+  have hw : WOps.lt cfg.wOne (WOps.zero : K) = false := by
+    rw [hone]
+    show decide ((1 : K) < 0) = false
+    simp
+  have := ((projest_pdf_sync cfg hw starts sc budget _ rfl).2.2.2.2.2.2 k ci hk).2.2
+  rw [this, hone, hcell]
+  split
+  · next h1 => rw [h1]; simp
+  · rfl
+
+/-- non-vacuity: a configuration over ℚ with the coded weights (one cell for everything) -/
+def projRat : ProjEST.Cfg Nat ℚ where
+  coord _ := [0]
+  lt a b := decide (a < b)
+  inf := 1000
+  goalBias := 0
+  canSample := true
+  wOne := 1
+  wCell n := 1 / (n : ℚ)
+  pickIdx _ _ := 0
+  bounds _ := true
+  valid _ := true
+  checkMotion _ _ := true
+  goalDist _ := 5
+  threshold := 1
+
+open Exact in
+example := projest_weight_is_inverse_count projRat rfl rfl #[1, 2, 3] { us := [0, 0, 1], nears := [(true, 7)] } 1
+
+/-- **The motion `selectMotion` picks is a tree motion** [AF]: at every interruption point of every run with at least
+one cell, for every pair of draws: `pdf_.sample` never reads out of range and never finds the PDF empty; the cell it
+returns exists and is non-empty (cells are created non-empty and never emptied); if the index draw respects its bounds
+(`hpick`, the contract of `uniformInt(0, n-1)`) the index is inside the cell and the motion found is a motion of the
+tree — so whenever `selectMotion` returns at all it returns a tree motion, and for `r ∈ [0,1]` it does return. -/
+theorem projest_select_is_tree_motion [WScale D] (cfg : ProjEST.Cfg S D)
+    (hw : WOps.lt cfg.wOne (WOps.zero : D) = false) (hpick : ∀ u n, 0 < n → cfg.pickIdx u n < n)
+    (starts : Array S) (sc : Script S D) (budget : Nat) (r u : D) :
+    ∀ st, st = (ProjEST.solve cfg starts sc budget).final → 0 < st.cells.size →
+      st.pdf.sample r ≠ .oob ∧ st.pdf.sample r ≠ .errEmpty ∧
+      (∀ h, st.pdf.sample r = .ok h → ∃ ci, st.cells[h]? = some ci ∧ 0 < ci.motions.size ∧
+        ∃ m nd, ci.motions[cfg.pickIdx u ci.motions.size]? = some m ∧ st.tree[m]? = some nd ∧
+          ProjEST.selectMotion cfg st r u = some m) ∧
+      ((WOps.lt r (WOps.zero : D) || WOps.lt (WScale.one : D) r) = false →
+        ∃ m nd, ProjEST.selectMotion cfg st r u = some m ∧ st.tree[m]? = some nd) := by
+  intro st hst hn
+  subst hst
+  have h := ProjEST.final_ginv cfg hw starts sc budget
+  have hsync := projest_pdf_sync cfg hw starts sc budget _ rfl
+  have hoob := sample_inbounds_of_shape (ProjEST.solve cfg starts sc budget).final.pdf r h.p.shape
+  have hne : (ProjEST.solve cfg starts sc budget).final.pdf.data.size ≠ 0 := by rw [h.p.size]; omega
+  have hemp : (ProjEST.solve cfg starts sc budget).final.pdf.sample r ≠ .errEmpty := by
+    unfold Pdf.sample
+    rw [if_neg hne]
+    split
+    · simp
+    · split
+      · simp
+      · split <;> simp
+  have key : ∀ k, (ProjEST.solve cfg starts sc budget).final.pdf.sample r = .ok k →
+      ∃ ci, (ProjEST.solve cfg starts sc budget).final.cells[k]? = some ci ∧ 0 < ci.motions.size ∧
+        ∃ m nd, ci.motions[cfg.pickIdx u ci.motions.size]? = some m ∧
+          (ProjEST.solve cfg starts sc budget).final.tree[m]? = some nd ∧
+          ProjEST.selectMotion cfg (ProjEST.solve cfg starts sc budget).final r u = some m := by
+    intro k hk
+    have hklt := (hsync.2.2.2.2.1 k).mp (OmplModel.EST.sample_ok_mem _ r k hk)
+    have hci : (ProjEST.solve cfg starts sc budget).final.cells[k]? =
+        some (ProjEST.solve cfg starts sc budget).final.cells[k] := Array.getElem?_eq_getElem hklt
+    have hpos := h.nonempty k _ hci
+    have hidx := hpick u _ hpos
+    have hm : (ProjEST.solve cfg starts sc budget).final.cells[k].motions[cfg.pickIdx u
+        (ProjEST.solve cfg starts sc budget).final.cells[k].motions.size]? = some _ := Array.getElem?_eq_getElem hidx
+    obtain ⟨nd, hnd, _⟩ := h.mem k _ _ _ hci hm
+    refine ⟨_, hci, hpos, _, nd, hm, hnd, ?_⟩
+    unfold ProjEST.selectMotion
+    rw [hk]
+    simp only [hci]
+    rw [if_neg (by omega), hm]
+  refine ⟨hoob, hemp, key, ?_⟩
+  intro hr
+  cases hres : (ProjEST.solve cfg starts sc budget).final.pdf.sample r with
+  | ok k =>
+    obtain ⟨ci, _, _, m, nd, _, hnd, hsel⟩ := key k hres
+    exact ⟨m, nd, hsel, hnd⟩
+  | errEmpty => exact absurd hres hemp
+  | oob => exact absurd hres hoob
+  | errRange =>
+    unfold Pdf.sample at hres
+    rw [if_neg hne, hr] at hres
+    simp only [Bool.false_eq_true, if_false] at hres
+    split at hres
+    · cases hres
+    · split at hres <;> cases hres
+
+example := @projest_select_is_tree_motion Nat Int intScale projToy projToy_hw projToy_pick #[4, 30] projScript 6 1 0 _ rfl
+  (by decide)
+
+/-- what a truthful report of ProjEST looks like (as `EstReal`) -/
+structure ProjReal (cfg : ProjEST.Cfg S D) (starts : Array S) (status : Status) (path : List S) (approx : Bool)
+    (dif : D) : Prop where
+  start : ∃ s0, path.head? = some s0 ∧ ProjEST.ValidStart cfg starts s0
+  edges : Chain (fun a b => cfg.checkMotion a b = true) path
+  goal : ∃ last, path.getLast? = some last ∧ dif = cfg.goalDist last ∧
+    (approx = false ↔ cfg.lt (cfg.goalDist last) cfg.threshold = true)
+  exact : status = .exactSolution ↔ approx = false
+  approximate : status = .approximateSolution ↔ approx = true
+
+/-- **ProjEST reports only real solutions** [AF]: for every configuration, start set, script and interruption point a
+solution status means `addSolutionPath` was called with a path that starts at a valid start, whose every step passed
+`checkMotion`, with difference = goal distance of the last state and a truthful approximate flag; any other status
+(TIMEOUT, INVALID_START) means it was not called. -/
+theorem projest_solution_real [WScale D] (cfg : ProjEST.Cfg S D) (starts : Array S) (sc : Script S D) (budget : Nat) :
+    ((ProjEST.solve cfg starts sc budget).status.toBool = true →
+        ∃ path approx dif, (ProjEST.solve cfg starts sc budget).added = some (path, approx, dif) ∧
+          ProjReal cfg starts (ProjEST.solve cfg starts sc budget).status path approx dif) ∧
+      ((ProjEST.solve cfg starts sc budget).status.toBool = false → (ProjEST.solve cfg starts sc budget).added = none) := by
+  unfold ProjEST.solve
+  simp only
+  split
+  · exact ⟨fun h => by simp [Status.toBool] at h, fun _ => rfl⟩
+  · have hi := ProjEST.initSt_inv cfg starts sc
+    have hinv := ProjEST.loop_inv cfg starts budget _ hi.1 hi.2
+    generalize ProjEST.loop cfg budget (ProjEST.initSt cfg starts sc).1 = st at hinv
+    split
+    · next i hsol =>
+      refine ⟨fun _ => ?_, fun h => by simp [ofFlags_toBool] at h⟩
+      refine ⟨_, _, _, rfl, ?_⟩
+      cases hs : st.solution with
+      | some j =>
+        simp only [hs, Option.some.injEq] at hsol
+        subst hsol
+        obtain ⟨nd, h1, h2, h3⟩ := hinv.sol j hs
+        obtain ⟨l, e1, e2, e3, e4⟩ :=
+          OmplModel.EST.pathTo_spec (ProjEST.toEST cfg) starts st.tree hinv.tree (j + 1) j nd [] h1 (by omega)
+        simp only [List.append_nil] at e1
+        rw [e1]
+        exact ⟨e2, e3, ⟨nd.state, e4, h3, by simp [h2]⟩, by simp [Status.ofFlags], by simp [Status.ofFlags]⟩
+      | none =>
+        simp only [hs] at hsol
+        obtain ⟨nd, h1, h2, h3⟩ := hinv.approx hs i hsol
+        obtain ⟨l, e1, e2, e3, e4⟩ :=
+          OmplModel.EST.pathTo_spec (ProjEST.toEST cfg) starts st.tree hinv.tree (i + 1) i nd [] h1 (by omega)
+        simp only [List.append_nil] at e1
+        rw [e1]
+        exact ⟨e2, e3, ⟨nd.state, e4, h3, by simp [h2]⟩, by simp [Status.ofFlags], by simp [Status.ofFlags]⟩
+    · exact ⟨fun h => by simp [ofFlags_toBool] at h, fun _ => rfl⟩
+
+/-- non-vacuity: an exact solution, interrupted after two iterations an approximate one (difference 3 = |9 - 6|),
+interrupted at once TIMEOUT, without a valid start INVALID_START. -/
+example : (projRun 6).status = .exactSolution ∧ (projRun 6).added = some ([4, 5, 6, 9], false, 0) := by decide
+example : (projRun 2).status = .approximateSolution ∧ (projRun 2).added = some ([4, 5, 6], true, 3) := by decide
+example : (projRun 0).status = .timeout ∧ (projRun 0).added = none := by decide
+example : (@ProjEST.solve Nat Int intScale projToy #[30] projScript 6).status = .invalidStart := by decide
+
+end ProjEST
 
 end OmplModel.Props.C12
